@@ -769,6 +769,17 @@ func allocatorRecords(a *ssa.Function, counted fieldRef) (Status, string) {
 			looked++
 			continue
 		}
+		// a shared numbering step (`val = vars.add(l.v)`): judged in the function that computes and records the index
+		if c, isC := v.(*ssa.Call); isC {
+			if g := c.Call.StaticCallee(); g != nil && g != a && len(g.Blocks) > 0 && isIntResult(g) {
+				if st, d := allocatorRecords(g, counted); st == Discharged {
+					fresh++
+					continue
+				} else if st == Violated {
+					return st, d
+				}
+			}
+		}
 		fa, ok := freshIndex(v)
 		if !ok {
 			return Violated, "hands out an integer that is neither looked up in the counted map nor its size+1: " + v.String()
